@@ -165,10 +165,18 @@ def run(ctx: Ctx):
     ctx.assume("sympy's diff and its printing of the result are trusted")
     ctx.rule("R06.a", "generalized Rush-Larsen path table: Euler when the own-state derivative is identically zero, guarded RL when the zero-division check is needed, plain RL otherwise; LIN defined before use", floor=6)
     name = table.get("generalized_rush_larsen")
+    errs = ctx.__dict__.get("_scheme_model_errors", {})
+    if name in errs:
+        common.check_single_pass(ctx, "R06.a", name)
+        ctx.undecided("R06.a", gs.key("path-table"), f"the path table of {name} is not built: {errs[name][:120]}")
+        ctx.rule("R06.b", "the zero-division guard is elided only for a**-1 and products of accepted factors (cheap syntactic check, conservative)", floor=4)
+        check_elision(ctx, "R06.b")
+        return
     if name not in models:
         ctx.fail("R06.a", gs.key("alias::generalized_rush_larsen"), f"get_scheme maps 'generalized_rush_larsen' to {name!r}, which is not a scheme builder", gs.where())
         name = "generalized_rush_larsen"
     m = models[name]
+    common.check_single_pass(ctx, "R06.a", name)
     check_first_def(ctx, "R06.a", m)
     check_counter(ctx, "R06.a", m)
     check_single_exit(ctx, "R06.a", m)
